@@ -16,7 +16,7 @@ sys.path.insert(0, os.path.join(os.path.dirname(__file__), "..", "..", "tools"))
 import vlib
 
 ENGINE = "future"
-SILENT = {"b_wait", "drop_spin", "fut_deliver", "cb_ret"}
+SILENT = {"b_wait", "b_destroy", "drop_spin", "fut_deliver", "cb_ret"}
 LIB = ["inplace_stop_token.cpp", "async_manual_reset_event_v1.cpp", "async_stack.cpp", "exception.cpp",
        "manual_event_loop.cpp"]
 
@@ -82,18 +82,34 @@ def symbolize_stderr(exe, se):
 
 
 def mc_scenarios():
+    """nest = "v2": the scope's nest receiver destroys the wrapped operation before forwarding its completion;
+    nest = "id": an identity scope (nest() returns the sender): destruct_op() destroys the spawned operation itself."""
     out = []
-    for b in ["await", "drop", "connect_drop"]:
-        for stop in ([False, True] if b != "drop" else [False]):
-            for ch in ["value", "error", "done"]:
-                for leaf in ["thread", "inline"]:
-                    out.append(dict(id=len(out) + 1, b=b, stop=stop, ch=ch, leaf=leaf))
+    for nest in ["v2", "id"]:
+        for b in ["await", "drop", "connect_drop"]:
+            for stop in ([False, True] if b != "drop" else [False]):
+                for ch in ["value", "error", "done"]:
+                    for leaf in ["thread", "inline"]:
+                        out.append(dict(id=len(out) + 1, b=b, stop=stop, ch=ch, leaf=leaf, nest=nest))
     return out
+
+
+def handover_family(s):
+    """the scenarios in which the operation side can hand the block over to a cancelled future while its own operation
+    state still lives in it: all their TLC behaviours are replayed even in the quick tier, more schedules enumerated"""
+    return s.get("nest") == "id" and s["b"] == "await" and s["stop"] and s["leaf"] == "thread"
 
 
 def real_scenarios(mc, tier):
     """mc scenarios (ids kept) on a v2 scope, then the families TLC does not model."""
-    out = [dict(s, kind="future", scope="v2", spawn="ok") for s in mc]
+    out = [dict(s, kind="future", scope="id" if s["nest"] == "id" else "v2", spawn="ok") for s in mc]
+    for s in out:
+        if s["scope"] == "id":
+            if handover_family(s):
+                s["capx"] = 4
+            elif tier == "quick" and not (s["b"] == "await" or (s["ch"] == "value" and s["leaf"] == "thread")):
+                s["enum"] = False                     # guided replay only
+    mc = [s for s in mc if s["nest"] == "v2"]        # the v1 family below mirrors the v2 one
 
     def add(**k):
         k["id"] = len(out) + 1
@@ -103,7 +119,7 @@ def real_scenarios(mc, tier):
 
     chans = ["value", "error", "done"]
     for s in mc:                                      # the same protocol reached through v1::async_scope (attach)
-        if tier == "quick" and s["leaf"] == "inline" and s["ch"] == "error":
+        if tier == "quick" and s["leaf"] == "inline" and s["ch"] != "value":
             continue
         add(scope="v1", b=s["b"], stop=s["stop"], ch=s["ch"], leaf=s["leaf"])
     for scope in ["v2", "v1"]:
@@ -206,10 +222,20 @@ def run(ctx):
     f_strict = {inv: side.submit(vlib.model_check, ctx, "future", "SpawnFutureStrict", cfg=cfg, env={"SCENARIOS": mcp}, must_hold=False,
                                  workers=1, timeout=900)
                 for cfg, inv in (("SpawnFutureUAF.cfg", "NoAccessAfterDelete"), ("SpawnFutureTerm.cfg", "NoTerminate"))}
+    # non-vacuity: the spec-level mutation "destroy the nested operation after the abandoned->complete hand-over" must
+    # violate NestedOpDeadBeforeFree
+    f_mut = side.submit(vlib.model_check, ctx, "future", "SpawnFutureStrict", cfg="SpawnFutureMutDtor.cfg", env={"SCENARIOS": mcp},
+                        must_hold=False, workers=1, timeout=900)
     vlib.model_check(ctx, "future", "SpawnFutureMC", env={"SCENARIOS": mcp, "EDGES": edges}, workers=1, timeout=900)
 
     def finish_side():
         f_live.result(); f_det.result()
+        r = f_mut.result()
+        if r["kind"] != "invariant" or r["violated"] != "NestedOpDeadBeforeFree":
+            raise vlib.Broken("spec self-test: SpawnFutureMutDtor.cfg (nested operation destroyed after the hand-over) must violate "
+                              "NestedOpDeadBeforeFree, got %s %s:\n%s" % (r["kind"], r["violated"], r["out"][-1500:]))
+        rep.mc[:] = [m for m in rep.mc if m.get("cfg") != "SpawnFutureMutDtor.cfg"] + \
+                    [dict(m, result="violated-as-required") for m in rep.mc if m.get("cfg") == "SpawnFutureMutDtor.cfg"]
         for inv, fu in f_strict.items():
             r = fu.result()
             if r["kind"] in ("error", "timeout", "assert"):
@@ -227,11 +253,16 @@ def run(ctx):
         walks += vlib.random_walks(adj, inits, 1500, ctx.rng)
     bp = os.path.join(ctx.work, "behaviours.ndjson")
     seen, nb, nbad, kept_bad = set(), 0, 0, 0
-    max_bad = 4 if ctx.quick else 12
-    if ctx.quick and len(walks) > 260:
-        stride = len(walks) / 260.0
-        walks = [walks[int(i * stride)] for i in range(260)]
-        rep.note("quick tier: every %.1f-th edge-covering walk replayed" % stride)
+    max_bad = 10 ** 9          # memory events no longer cost a process restart (ASan recover mode): replay them all
+    mcid = {s["id"]: s for s in mc}
+    if ctx.quick:
+        keep = [w for w in walks if handover_family(mcid[w[0]["scn"]])]
+        rest = [w for w in walks if not handover_family(mcid[w[0]["scn"]])]
+        if len(rest) > 300:
+            stride = len(rest) / 300.0
+            rest = [rest[int(i * stride)] for i in range(300)]
+            rep.note("quick tier: all %d edge-covering walks of the hand-over family, every %.1f-th of the others replayed" % (len(keep), stride))
+        walks = keep + rest
     with open(bp, "w") as f:
         for w in walks:
             sched = [[e["th"], e["pc"]] for e in w if e["pc"] not in SILENT]
